@@ -193,15 +193,15 @@ theorem ackBlock_spec (s : Tcb) (seg : Hdr) :
         | exact ⟨hs1.mtu, hs1.rcv, hs1.incoming⟩
         | simp [hne, hst]
     · -- LAST-ACK
-      dsimp only
-      split <;> exact ⟨_, _, rfl, ⟨rfl, rfl, rfl⟩, Iff.rfl⟩
-    · -- TIME-WAIT
       rename_i hst
-      simp only [enqueueThen_eq]
-      refine ⟨_, _, rfl, ?_, ?_⟩
-      · have := same_enqueueBuilt s (((s.headerBuilder s.snd.nxt).withAck (seg.seq + 1)).withWnd s.rcv.wnd).built
-        exact ⟨this.mtu, this.rcv, this.incoming⟩
-      · simp only [state_enqueueBuilt]
+      refine afterAck_spec _ seg _
+        (fun x => ∃ s' r, x = .ok (s', r) ∧ Same s s' ∧ (s'.state = .SynSent ↔ s.state = .SynSent)) ?_
+      intro s1 r1 hs1 hst1
+      split
+      · exact ⟨_, _, rfl, hs1, by rw [hst1]⟩
+      · split <;> exact ⟨_, _, rfl, hs1, by rw [hst1]⟩
+    · -- TIME-WAIT
+      exact ⟨_, _, rfl, Same.refl _, Iff.rfl⟩
 
 /-- block 3 changes nothing -/
 theorem rstBlock_spec (s : Tcb) (seg : Hdr) : ∃ r, rstBlock s seg = .ok (s, r) := by
@@ -209,7 +209,9 @@ theorem rstBlock_spec (s : Tcb) (seg : Hdr) : ∃ r, rstBlock s seg = .ok (s, r)
   split
   · exact ⟨_, rfl⟩
   · split
-    · split <;> exact ⟨_, rfl⟩
+    · split
+      · exact ⟨_, rfl⟩
+      · split <;> exact ⟨_, rfl⟩
     · split <;> exact ⟨_, rfl⟩
     all_goals exact ⟨_, rfl⟩
 
@@ -545,6 +547,23 @@ theorem segmentizeIfOpen_spec (s : Tcb) (hge : SPACE_FOR_HEADERS ≤ s.mtu.toNat
     | (rw [if_neg (by omega)]; exact seg)
     | exact ⟨_, rfl, Same.refl _, rfl⟩
 
+/-- `queue_fin` never panics and touches only the send side -/
+theorem queueFin_spec (s : Tcb) : ∃ s', s.queueFin = .ok s' ∧ Same s s' ∧ s'.state = s.state := by
+  unfold queueFin
+  split
+  · rw [enqueue_eq]
+    dsimp only
+    have := same_enqueueBuilt s s.finHdr.built
+    exact ⟨_, rfl, ⟨this.mtu, this.rcv, this.incoming⟩, by simp only [state_enqueueBuilt]⟩
+  · exact ⟨_, rfl, Same.refl _, rfl⟩
+
+theorem finIfPending_spec (b : Bool) (s : Tcb) :
+    ∃ s', finIfPending b s = .ok s' ∧ Same s s' ∧ s'.state = s.state := by
+  unfold finIfPending
+  split
+  · exact queueFin_spec s
+  · exact ⟨_, rfl, Same.refl _, rfl⟩
+
 /-- `segments()` never panics on a well-formed TCB and touches only the send side -/
 theorem segments_spec (s : Tcb) (h : Wf s) :
     ∃ s' out, s.segments = .ok (s', out) ∧ Same s s' ∧ s'.state = s.state := by
@@ -553,7 +572,11 @@ theorem segments_spec (s : Tcb) (h : Wf s) :
   obtain ⟨s1, e1, same1, st1⟩ := segmentizeIfOpen_spec { s with outgoing.oneshot := [] } h.mtu_ge
   rw [e1]
   dsimp only
-  split <;> exact ⟨_, _, rfl, ⟨same1.mtu, same1.rcv, same1.incoming⟩, st1⟩
+  obtain ⟨s2, e2, same2, st2⟩ := finIfPending_spec s.finPending s1
+  rw [e2]
+  dsimp only
+  have same : Same s s2 := ⟨same2.mtu.trans same1.mtu, same2.rcv.trans same1.rcv, same2.incoming.trans same1.incoming⟩
+  split <;> exact ⟨_, _, rfl, ⟨same.mtu, same.rcv, same.incoming⟩, st2.trans st1⟩
 
 theorem advanceRetransmission_spec (s : Tcb) (dt : Nat) :
     ∃ s', s.advanceRetransmission dt = .ok s' ∧ Same s s' ∧ s'.state = s.state := by
@@ -591,12 +614,16 @@ theorem close_spec (s : Tcb) :
     ∃ s' r, s.close = .ok (s', r) ∧ Same s s' ∧ (s'.state = .SynSent → s.state = .SynSent) := by
   unfold close
   split
-  all_goals first
-    | exact ⟨_, _, rfl, Same.refl _, id⟩
-    | (rw [enqueue_eq]
-       dsimp only
-       have := same_enqueueBuilt s s.finHdr.built
-       exact ⟨_, _, rfl, ⟨this.mtu, this.rcv, this.incoming⟩, fun h => by simp at h⟩)
+  · obtain ⟨s1, e1, same1, st1⟩ := queueFin_spec ({ s with state := .FinWait1 } : Tcb)
+    rw [e1]
+    exact ⟨_, _, rfl, ⟨same1.mtu, same1.rcv, same1.incoming⟩, fun h => by rw [st1] at h; simp at h⟩
+  · obtain ⟨s1, e1, same1, st1⟩ := queueFin_spec ({ s with state := .FinWait1 } : Tcb)
+    rw [e1]
+    exact ⟨_, _, rfl, ⟨same1.mtu, same1.rcv, same1.incoming⟩, fun h => by rw [st1] at h; simp at h⟩
+  · obtain ⟨s1, e1, same1, st1⟩ := queueFin_spec ({ s with state := .LastAck } : Tcb)
+    rw [e1]
+    exact ⟨_, _, rfl, ⟨same1.mtu, same1.rcv, same1.incoming⟩, fun h => by rw [st1] at h; simp at h⟩
+  · exact ⟨_, _, rfl, Same.refl _, id⟩
 
 /-- `abort` never panics -/
 theorem abort_spec (s : Tcb) : ∃ s', s.abort = .ok s' ∧ Same s s' ∧ s'.state = s.state := by
